@@ -33,5 +33,10 @@ example : ((reordered w3 ["a", "b", "c"] [2, 0, 1] [1, 2, 0]).toOption.bind fun 
       (reordered r1.wcs r1.worldTypes [1, 0, 2] [0, 2, 1]).toOption.map fun r2 =>
         (r2.wcs.p2w (selectIdx (selectIdx [1, 0, 2] [2, 0, 1]) [10, 20, 30]), r2.worldTypes))
     = some (selectIdx (selectIdx [0, 2, 1] [1, 2, 0]) (w3.p2w [10, 20, 30]), ["b", "a", "c"]) := by decide +kernel
+-- bounds of a compound WCS: two members share input 0; equal bounds are kept, a difference at one end only is refused
+example : (compoundBounds [some [(-1/2, 19/2), (0, 3)], some [(-1/2, 19/2)]] [0, 1, 0]).toOption
+      = some (some [(-1/2, 19/2), (0, 3)]) ∧
+    (compoundBounds [some [(-1/2, 19/2), (0, 3)], some [(-1/2, 15/2)]] [0, 1, 0]).toOption = none ∧
+    (compoundBounds [some [(-1/2, 19/2), (0, 3)], none] [0, 1, 0]).toOption = some none := by decide +kernel
 
 end Ndcube.C14.Witness
